@@ -30,6 +30,55 @@ def alias_reads(repo):
     return out
 
 
+def check_guess_format(cx, rep):
+    """_guess_audio_format(filename, fmt) evaluated on a grid of names and explicit formats (paths of the function taken through
+    their conditions): the explicit format wins, else the extension; either is lower-cased, "wave" means "wav", no extension and
+    no format is None.  The readers / writers dispatch on exactly "raw" / "wav" (C09, C13, C18)."""
+    import os as _os
+    from ..semantic import deep_leaves, evaluator, holds, value, Undecided
+    from ..termeval import NotEvaluable
+    fn = cx.fn('io', '_guess_audio_format', required=False)
+    if fn is None:
+        rep.unknown('io._guess_audio_format not found')
+        return
+    ps = [a.arg for a in fn.args.args]
+    if len(ps) != 2:
+        rep.unknown('_guess_audio_format: expected (filename, fmt) parameters, found %s' % ps)
+        return
+
+    def spec(name, fmt):
+        if fmt is None:
+            fmt = _os.path.splitext(name)[1][1:]
+            if not fmt:
+                return None
+        fmt = fmt.lower()
+        return 'wav' if fmt == 'wave' else fmt
+    bad, n = None, 0
+    try:
+        lv = deep_leaves(cx, getattr(fn, '_home', 'io'), None, fn)
+        for name in ('a.wav', 'REC0001.WAV', 'b.Wave', 'c.raw', 'DUMP.RAW', 'noext', 'f.ogg', 'g.tar.Wav', 'dir.d/h'):
+            for fmt in (None, 'wav', 'WAV', 'Wave', 'WAVE', 'raw', 'RAW', 'Raw', 'ogg', 'MP3'):
+                a = {('p', ps[0]): name, ('p', ps[1]): fmt}
+                hit = [l for l in lv if holds(l, evaluator(a))]
+                if len(hit) != 1:
+                    raise Undecided('%d paths apply to (%r, %r)' % (len(hit), name, fmt))
+                l = hit[0]
+                if l.outcome == 'raise':
+                    got = ('raise',)
+                else:
+                    ev = evaluator(a)
+                    got = value(l.value, ev) if l.value is not None else None
+                    if ev.leaves:
+                        raise Undecided('result for (%r, %r) depends on %s' % (name, fmt, [show(k)[:40] for k in ev.leaves][:2]))
+                n += 1
+                if got != spec(name, fmt) and bad is None:
+                    bad = (l, '_guess_audio_format(%r, %r) is %r, expected %r' % (name, fmt, got, spec(name, fmt)))
+        rep.ob('the audio format is the explicit format if given, else the file extension, lower-cased either way ("wave" = "wav"; neither: None)', bad is None,
+               cx.where('io', bad[0].node) if bad and bad[0].node is not None else cx.where('io', fn), '_guess_audio_format:grid', bad[1] if bad else None, sample=dict(function='_guess_audio_format', grid_points=n))
+    except (Undecided, NotEvaluable) as exc:
+        rep.unknown('_guess_audio_format: not evaluated on the grid (%s)' % exc)
+
+
 def check(repo, rep):
     cx = Ctx(repo)
     rep.cx = cx
@@ -279,8 +328,9 @@ def check(repo, rep):
     # ---------------------------------------------------------------- role agreement on the container paths
     # an empty file / empty input is audio too: a loader that hands the (None at end of stream) result of read() to something that
     # dereferences it crashes for that container only
+    check_guess_format(cx, rep)
     from .c10 import check_nullness
-    check_nullness(cx, rep, lambda f: f['mod'] == 'io', rule='a container loader never dereferences a read() result that is None for empty audio')
+    check_nullness(cx, rep, lambda f: cx.in_module(f['mod'], 'io'), rule='a container loader never dereferences a read() result that is None for empty audio')
     check_roles(cx, rep, lambda p: p['func'] in ('split', 'get_audio_source', 'from_file', '_load_raw', '_load_wave', '_load_with_pydub', '_get_audio_parameters', 'AudioRegion.load'), floor=30)
     rep.explanation = ('(a) census of every read of an alias key in the package: a short key (aw, mr, fmt, val, eth, uc, sr, sw, ch) is read only as the fallback of its own long name on the same dict '
                        '(long name wins); _get_audio_parameters (loop unrolled) yields FirstOf(dict; long, short) in the order rate, width, channels; (b) split() hands max_read / audio_format down '
